@@ -139,7 +139,7 @@ def r4(chk, lp):
 
 def r5(chk, fx):
     uses = R.text_uses(fx)
-    chk.floor("C13/R5 read_text sites", len(uses), 24)
+    chk.floor("C13/R5 read_text sites", len(uses), 12)
     for r in uses:
         fn = R.short_fn(r["fn"])
         c = r["call"]
